@@ -197,6 +197,10 @@ class SymtableCodeGen(AbstractCodeGen):
         for sym in regedSyms:
             self._postponedSyms.pop(sym)
 
+        if regedSyms:
+            # newly registered symbols may be parents of other postponed ones
+            self.regPostponedSyms()
+
         # Clause handlers
 
     # noinspection PyUnusedLocal
